@@ -903,7 +903,45 @@ def ignore_args(idx: ProgramIndex, rep: Report):
                     n += 1
                     ok, why = _ignore_args_validated(f, node, cname)
                     rep.add("C03-5", "%s:%s.%s->%s[%s]" % (cc.module.name, cc.qualname, f.name, m.name, cname), "%s:%d" % (f.module.relpath, node.lineno), ok, why, {"argument": src(node.args[0]) if node.args else ""})
+                    # the VALUE of the ignored argument may depend on a setting (read through a property of the object): a validation by shape
+                    # does not see that, and the memo is not cleared in evaluation mode
+                    dep = _argument_setting(idx, cc, f, node)
+                    if dep is not None:
+                        key = "%s:%s.%s->%s[%s <- settings.%s]" % (cc.module.name, cc.qualname, f.name, m.name, cname, dep[0])
+                        if not any(o.rule == "C03-5" and o.instance == key for o in rep.obligations):
+                            n += 1
+                            compares_value = any(dep[1] in src(t) for t in ast.walk(f.node) if isinstance(t, ast.Compare))
+                            rep.add("C03-5", key, "%s:%d" % (f.module.relpath, node.lineno), compares_value,
+                                    "the consumer compares self.%s with the value the entry was computed for" % dep[1] if compares_value else
+                                    "the argument `%s` of the argument-ignoring memo '%s' contains self.%s, which reads settings.%s on every call; the entry is validated by shape only and never cleared in evaluation mode: a prediction under settings.%s(v) leaves its factor behind for every later prediction under other values (a fresh model differs)" % (
+                                        " ".join(src(node.args[0]).split())[:40] if node.args else "", cname, dep[1], dep[0], dep[0]), {})
     rep.floor("C03-5", "consumers of argument-ignoring memo entries", n, 4)
+
+
+def _argument_setting(idx: ProgramIndex, cc: ClassInfo, f: FuncInfo, call: ast.Call) -> Optional[Tuple[str, str]]:
+    """(setting, property) if the first argument of `call` is computed in f from a property of self that reads a setting"""
+    if not call.args:
+        return None
+    exprs = [call.args[0]]
+    seen = set()
+    k = 0
+    while k < len(exprs) and k < 20:
+        e = exprs[k]
+        k += 1
+        for x in ast.walk(e):
+            if isinstance(x, ast.Attribute) and isinstance(x.value, ast.Name) and x.value.id == f.params[0]:
+                prop = cc.lookup(x.attr)
+                if prop is not None and prop.kind == "property":
+                    for c in calls_in(prop.node):
+                        sname = setting_name(idx, prop, c)
+                        if sname:
+                            return sname, x.attr
+            if isinstance(x, ast.Name) and x.id not in seen:
+                seen.add(x.id)
+                for a in ast.walk(f.node):
+                    if isinstance(a, ast.Assign) and a.lineno < call.lineno and any(isinstance(t, ast.Name) and t.id == x.id for t in a.targets):
+                        exprs.append(a.value)
+    return None
 
 
 def _ignore_args_validated(f: FuncInfo, call: ast.Call, cname: str) -> Tuple[bool, str]:
@@ -1449,7 +1487,95 @@ def caches_survive_backward(idx: ProgramIndex, rep: Report):
                     "`%s` is planted into the memo entry '%s' %s and without a clear_cache_hook on its grad_fn: the @cached reader registers one, so a model that got this entry planted (a fantasy model) can be back-propagated through once only - the second pass raises 'Trying to backward through the graph a second time', a model built from scratch does not"
                     % (" ".join(src(v).split())[:40], cname, "with its autograd graph" if verdict == "with graph" else "(%s)" % verdict), {})
     rep.floor("C03-11", "planted prediction caches", np_, 4)
+    # (d) the memo of the variational strategies is cleared by every training-mode call, but not in evaluation mode: what the evaluation-mode
+    #     prediction path (__call__ -> forward) reads from it has to honour the same convention
+    VS = idx.find_class("_VariationalStrategy")
+    nv = 0
+    seen_members = set()
+    for cls in sorted([VS] + list(idx.subclasses(VS)), key=lambda c: c.qualname):
+        entry = [m for m in (cls.lookup("__call__"), cls.lookup("forward")) if m is not None]
+        reach = _reach_outside_init_guards(cls, entry)
+        for m in reach:
+            cname, _ig = cache_name_of(m)
+            if cname is None or m.name in ("amortized_exact_gp", "pseudo_points"):
+                continue  # (the fantasy machinery is not on the prediction path)
+            key = (m.module.name, m.qualname)
+            if key in seen_members:
+                continue
+            seen_members.add(key)
+            nv += 1
+            ok, why = honours(m.node)
+            if not ok and _built_from_constants(m.node):
+                ok, why = True, "built from constant tensors (zeros / ones): there is no autograd graph to keep"
+            rep.add("C03-11", "%s:%s[%s, evaluation mode]" % (m.module.name, m.qualname, cname), m.where, ok, why if ok else
+                    "the memo entry '%s' is read by the evaluation-mode prediction path and kept with its autograd graph (no detach under settings.detach_test_caches, no clear_cache_hook); the memo is only cleared by training-mode calls: eval() -> predict -> backward -> predict -> backward raises 'Trying to backward through the graph a second time' under the default settings (a fresh model does not)" % cname, {})
+    rep.floor("C03-11", "memo entries of the variational strategies on the prediction path", nv, 3)
     rep.floor("C03-11", "evaluation-mode caches on the prediction path", n, 8)
+
+
+CREATION = {"torch.zeros", "torch.ones", "torch.zeros_like", "torch.ones_like", "torch.eye", "torch.arange", "torch.full", "torch.empty", "torch.tensor"}
+
+
+def _built_from_constants(fn: ast.AST) -> bool:
+    """every returned value is assembled (through constructors) from torch creation functions only"""
+    assigns: Dict[str, List[ast.AST]] = {}
+    for a in ast.walk(fn):
+        if isinstance(a, ast.Assign):
+            for t in a.targets:
+                if isinstance(t, ast.Name):
+                    assigns.setdefault(t.id, []).append(a.value)
+
+    def const(e, depth=0) -> bool:
+        if depth > 8:
+            return False
+        if isinstance(e, ast.Name):
+            vs = assigns.get(e.id)
+            return bool(vs) and all(const(v, depth + 1) for v in vs)
+        if isinstance(e, ast.Call):
+            fn_ = chain(e.func) or ""
+            if fn_ in CREATION:
+                return True
+            if fn_ and fn_.split(".")[-1][:1].isupper():
+                return all(const(a, depth + 1) for a in e.args) and all(const(k.value, depth + 1) for k in e.keywords)
+        return False
+    rets = [r.value for r in ast.walk(fn) if isinstance(r, ast.Return) and r.value is not None]
+    return bool(rets) and all(const(r) for r in rets)
+
+
+ONE_TIME_GUARDS = ("variational_params_initialized", "updated_strategy")  # flag buffers: the guarded code runs once per object, not per prediction
+
+
+def _reach_outside_init_guards(cls: ClassInfo, entry: List[FuncInfo]) -> List[FuncInfo]:
+    """methods / properties of self used by the entry points, transitively, not counting uses under a one-time initialisation guard"""
+    out: List[FuncInfo] = []
+    seen = set()
+    work = list(entry)
+
+    def uses(fn_node, me):
+        found = []
+
+        def rec(node):
+            if isinstance(node, ast.If) and any(g in src(node.test) for g in ONE_TIME_GUARDS):
+                for st in node.orelse:
+                    rec(st)
+                return
+            if isinstance(node, ast.Attribute) and isinstance(node.value, ast.Name) and node.value.id == me:
+                found.append(node.attr)
+            for ch in ast.iter_child_nodes(node):
+                rec(ch)
+        rec(fn_node)
+        return found
+    while work:
+        f = work.pop()
+        if id(f.node) in seen or not f.params:
+            continue
+        seen.add(id(f.node))
+        out.append(f)
+        for name in uses(f.node, f.params[0]):
+            t = cls.lookup(name)
+            if t is not None and id(t.node) not in seen:
+                work.append(t)
+    return out
 
 
 def _planted_value_honours(fi: FuncInfo, site: ast.Call, v: ast.AST, hookers: Set[str], depth: int = 0) -> str:
